@@ -17,8 +17,11 @@ database:
       context  [,][ ][at ]D+ T  with D+ one or two arbitrary digits and T a documented terminator, followed
       by <= 1 arbitrary character, POST_SHORT_CITATION_REGEX / POST_FULL_CITATION_REGEX capture exactly the
       written pin cite; the symbolic matcher is validated against the real `regex` engine on every path.
+  (6) full-span start = extracted plaintiff; (7) the full span of a full case / law / journal citation covers
+      its parenthetical and the closing parenthesis (E2 on add_post_citation / add_law_metadata /
+      add_journal_metadata, with the "what follows the group inside the match" fact read off the pattern AST).
 NOT decided: captures on longer contexts, party names, courts, "exactly one citation per written citation"
-under overlapping patterns, full-span ends.
+under overlapping patterns, full-span ends beyond clause (7).
 """
 import multiprocessing as mp
 import os
@@ -413,7 +416,7 @@ def check(rep):
     # full-span start = extracted plaintiff (symbolic add_defendant, shared with C02's harness)
     from vf.harness import c02
 
-    fnd, W = c02.explore_parts(rep, "C01", parts=["defn"])
+    fnd, W = c02.explore_parts(rep, "C01", parts=["defn", "post", "law", "journal"])
     c02.settle(rep, "C01", fnd, ["C01:"])
     rep.distinct = rep.evaluations
     import regex
